@@ -2,38 +2,60 @@
 C02 — a packet whose PEC does not match is never accepted or acted upon.
 -/
 import Mctp.Lemmas.Process
+import Mctp.Lemmas.DecodeNF
+import Mctp.Lemmas.Burst
 import Mctp.Spec.State
 namespace Mctp
 namespace C02
 
 theorem decode_ok_pec (p : Bytes) (r : Dec) (h : decode p = .ok r) : Spec.pecOk p = true := by
-  sorry
+  obtain ⟨t, off, len⟩ := r
+  obtain ⟨h10, _, hp, _⟩ := decode_ok_inv h
+  have hne : p ≠ [] := by intro h; subst h; simp at h10
+  rw [pecOk_eq p hne, hp]; simp
+
+theorem decode_bad_pec (p : Bytes) (h : Spec.pecOk p = false) : (decode p).isOk = false := by
+  cases hd : decode p with
+  | ok r => rw [decode_ok_pec p r hd] at h; simp at h
+  | err e => rfl
+  | panic k => rfl
+
+theorem process_bad_pec (c : Ctx) (p buf : Bytes) (h : Spec.pecOk p = false) :
+    ∃ r, process c p buf = (c, r, buf) ∧ r.isOk = false := by
+  unfold process
+  cases hd : decode p with
+  | ok r => rw [decode_ok_pec p r hd] at h; simp at h
+  | err e => exact ⟨.err e, rfl, rfl⟩
+  | panic k => exact ⟨.panic k, rfl, rfl⟩
 
 theorem process_ok_pec (c : Ctx) (p buf : Bytes) (r : Dec × Option Nat)
     (h : (process c p buf).2.1 = .ok r) : Spec.pecOk p = true := by
-  sorry
+  cases hp : Spec.pecOk p
+  · obtain ⟨r', hr, hok⟩ := process_bad_pec c p buf hp
+    rw [hr] at h; simp only at h; rw [h] at hok; simp [Out.isOk] at hok
+  · rfl
 
 /-- input failing the PEC test: no success, no response bytes, context unchanged -/
 theorem bad_pec_inert (c : Ctx) (p buf : Bytes) (h : Spec.pecOk p = false) :
-    ∃ r, process c p buf = (c, r, buf) ∧ r.isOk = false := by
-  sorry
+    ∃ r, process c p buf = (c, r, buf) ∧ r.isOk = false := process_bad_pec c p buf h
 
 /-- … and therefore no later output changes: the rest of any history runs as if it had not happened -/
 theorem bad_pec_no_later_effect (c : Ctx) (p buf : Bytes) (ops : List Op) (h : Spec.pecOk p = false) :
     (runOps c (.process p buf :: ops)).1 = (runOps c ops).1 ∧
     (runOps c (.process p buf :: ops)).2.tail = (runOps c ops).2 := by
-  sorry
+  obtain ⟨r, hr, _⟩ := process_bad_pec c p buf h
+  simp [runOps, stepOp, hr]
 
 /-- no corruption of a valid packet confined to eight consecutive bits passes the PEC test -/
 theorem burst (p e : Bytes) (hp : Spec.pecOk p = true) (he : Spec.isBurst8 e = true)
-    (hl : e.length = p.length) : Spec.pecOk (Spec.xorBytes p e) = false := by
-  sorry
+    (hl : e.length = p.length) : Spec.pecOk (Spec.xorBytes p e) = false :=
+  pecOk_burst p e hp he hl
 
 theorem burst_not_accepted (c : Ctx) (p e buf : Bytes) (hp : Spec.pecOk p = true)
     (he : Spec.isBurst8 e = true) (hl : e.length = p.length) :
     (decode (Spec.xorBytes p e)).isOk = false ∧
-    ∃ r, process c (Spec.xorBytes p e) buf = (c, r, buf) ∧ r.isOk = false := by
-  sorry
+    ∃ r, process c (Spec.xorBytes p e) buf = (c, r, buf) ∧ r.isOk = false :=
+  ⟨decode_bad_pec _ (burst p e hp he hl), process_bad_pec c _ buf (burst p e hp he hl)⟩
 
 end C02
 end Mctp
